@@ -383,55 +383,51 @@ macro_rules! lemire_harness {
 lemire_harness!(c11_lemire_truncated_f64, f64, F64);
 lemire_harness!(c11_lemire_truncated_f32, f32, F32);
 
-// ---------------------------------------------------------------- exact ties at negative exponents
+// ---------------------------------------------------------------- tie window (both ends)
 //
-// For q = -k inside the tie window an exact rounding tie has the form
-//   w = (2m+1) * 5^k  with 2m+1 of ms+2 bits,  w * 10^-k = (2m+1) * 2^-k,
-// and must be rounded to the even neighbour.  Checked with the REAL multiplication for each k
-// separately (the power 5^k and the table entry are then constants for the SAT back end).
-fn pow5(k: u32) -> u64 {
-    let mut p: u64 = 1;
-    let mut i = 0;
-    while i < k {
-        p *= 5;
-        i += 1;
-    }
-    p
-}
-
-macro_rules! lemire_neg_tie {
-    ($name:ident, $t:ty, $fmt:expr, $k:expr) => {
+// Lemire's analysis: a product whose low word is <= 1 and whose truncated bits are exactly
+// "half" denotes an exact rounding tie precisely when the decimal exponent lies in
+// [-4, 23] (f64) / [-17, 10] (f32); outside that window no exact tie exists and the same
+// bit pattern means "just above half".  The window ends are literals of this contract.
+macro_rules! tie_window {
+    ($name:ident, $t:ty, $fmt:expr, $wmin:expr, $wmax:expr, $qmin:expr, $qmax:expr) => {
+        /// compute_float with the product as ghost: a tie-shaped product (lo <= 1, truncated
+        /// bits exactly half, normal range) is rounded to EVEN iff q is inside the tie window,
+        /// and UP outside it.
         #[kani::proof]
-        #[kani::unwind(20)]
+        #[kani::stub(compute_product_approx, stub_product)]
         fn $name() {
-            // odd significand of exactly ms + 2 bits: 2^(ms+1) <= 2m+1 < 2^(ms+2)
-            let odd: u64 = kani::any();
-            kani::assume(odd & 1 == 1 && odd >> ($fmt.ms + 1) == 1);
-            let p5 = pow5($k);
-            kani::assume(odd <= u64::MAX / p5);
-            let w = odd * p5;
-            let fp = compute_float::<$t>(-($k as i32), w);
-            assert!(fp.exp >= 0, "C11 an exact tie inside the window is decided, not declined");
-            let bits = fp.mant | ((fp.exp as u64) << $fmt.ms);
-            // exact value = odd * 2^-k, as a normalised 64-bit significand
-            let lz = odd.leading_zeros();
-            let mant = odd << lz;
-            let e2 = -($k as i32) - lz as i32;
-            assert!(spec_is_rne_value($fmt, mant, e2, false, bits), "C11 exact tie at a negative exponent rounds to even");
-            kani::cover!(odd & 2 == 0, "tie whose lower neighbour is even");
-            kani::cover!(odd & 2 == 2, "tie whose upper neighbour is even");
+            let q: i32 = kani::any();
+            let w: u64 = kani::any();
+            let lo: u64 = kani::any();
+            let hi: u64 = kani::any();
+            kani::assume(q >= $qmin && q <= $qmax && w != 0);
+            kani::assume(hi >> 62 != 0 && lo <= 1);
+            // truncated bits of the (ms+2)-bit rounding candidate are exactly "half"
+            let upper = (hi >> 63) as u32;
+            let sh = upper + 64 - $fmt.ms - 3;
+            let cand = hi >> sh; // ms+2 bits: significand plus the rounding bit
+            kani::assume(cand & 1 == 1 && (cand << sh) == hi);
+            unsafe {
+                GHOST_LO = lo;
+                GHOST_HI = hi;
+            }
+            let lz = w.leading_zeros() as i32;
+            // stay in the normal range so that the expected fields are easy to state
+            let e_field = spec_log2_pow10(q) + 63 + upper as i32 - lz + ($fmt.bias - $fmt.ms as i32 - 1) + 1;
+            kani::assume(e_field >= 1 && (e_field as u64) < $fmt.inf_e - 1);
+            let fp = compute_float::<$t>(q, w);
+            assert!(fp.exp >= 0 || lo == u64::MAX, "C11 tie-shaped product is decided");
+            let sig = cand >> 1; // ms+1 bit significand below the tie
+            let inside = q >= $wmin && q <= $wmax;
+            let rounded = if inside && sig & 1 == 0 { sig } else { sig + 1 };
+            let (m, e) = if rounded >> ($fmt.ms + 1) == 1 { (rounded >> 1, e_field + 1) } else { (rounded, e_field) };
+            assert!(fp.mant == m & ((1u64 << $fmt.ms) - 1) && fp.exp == e, "C11 tie-shaped product: to even inside the window, up outside");
+            kani::cover!(inside && sig & 1 == 0, "tie rounded down to even");
+            kani::cover!(!inside && sig & 1 == 0 && q < 0, "below the window: rounded up");
+            kani::cover!(!inside && sig & 1 == 0 && q > 0, "above the window: rounded up");
         }
     };
 }
-lemire_neg_tie!(c11_lemire_neg_tie_f64_k1, f64, F64, 1);
-lemire_neg_tie!(c11_lemire_neg_tie_f64_k2, f64, F64, 2);
-lemire_neg_tie!(c11_lemire_neg_tie_f64_k3, f64, F64, 3);
-lemire_neg_tie!(c11_lemire_neg_tie_f64_k4, f64, F64, 4);
-lemire_neg_tie!(c11_lemire_neg_tie_f32_k1, f32, F32, 1);
-lemire_neg_tie!(c11_lemire_neg_tie_f32_k5, f32, F32, 5);
-lemire_neg_tie!(c11_lemire_neg_tie_f32_k9, f32, F32, 9);
-lemire_neg_tie!(c11_lemire_neg_tie_f32_k11, f32, F32, 11);
-lemire_neg_tie!(c11_lemire_neg_tie_f32_k13, f32, F32, 13);
-lemire_neg_tie!(c11_lemire_neg_tie_f32_k15, f32, F32, 15);
-lemire_neg_tie!(c11_lemire_neg_tie_f32_k16, f32, F32, 16);
-lemire_neg_tie!(c11_lemire_neg_tie_f32_k17, f32, F32, 17);
+tie_window!(c11_compute_float_tie_window_f64, f64, F64, -4, 23, -342, 308);
+tie_window!(c11_compute_float_tie_window_f32, f32, F32, -17, 10, -65, 38);
